@@ -309,6 +309,23 @@ static void render_paths(const std::basic_string<C> &p) {
             S out                    = render(one + src + two, v);
             if (!between(out, seg)) vf::fail("c03:echo:sentinels-lost", "payload=%s", vf::show(p.data(), p.size()).c_str());
             else check_escaped(src, seg, "echo");
+            // the same fallback for a loop variable whose index does not resolve, over an array and over an object
+            S        lsrc = W<C>("{var:v[") + p + W<C>("]}");
+            Value<C> arr;
+            arr += 1;
+            out = render(W<C>("<loop value=\"v\">") + one + lsrc + two + W<C>("</loop>"), arr);
+            if (!between(out, seg)) vf::fail("c03:loop-echo:sentinels-lost", "payload=%s", vf::show(p.data(), p.size()).c_str());
+            else check_escaped(lsrc, seg, "loop-echo");
+            Value<C> obj;
+            obj[W<C>("").c_str()] = 1;
+            obj[W<C>("k").c_str()] = typename Value<C>::ArrayT{};
+            out = render(W<C>("<loop value=\"v\">") + one + lsrc + two + W<C>("</loop>"), obj);
+            {
+                // two items: the segment between the first \x01 and the last \x02 holds both echoes and the text between
+                size_t a = out.find(C(1)), b = out.find(C(2));
+                if (a == S::npos || b == S::npos || b < a) vf::fail("c03:loop-echo-object:sentinels-lost", "payload=%s", vf::show(p.data(), p.size()).c_str());
+                else check_escaped(lsrc, out.substr(a + 1, b - a - 1), "loop-echo-object");
+            }
         }
     }
 }
